@@ -348,6 +348,7 @@ type Job struct {
 	TraceAll  bool           `json:"trace_all,omitempty"`
 	Status    string         `json:"status"`
 	Known     []KnownFinding `json:"known,omitempty"`
+	OnlySeed  int64          `json:"only_seed,omitempty"`
 }
 
 // KnownFinding is one "finding:" line of KNOWN_FINDINGS.
@@ -746,9 +747,13 @@ func aggregate(id, tier string, seed int64, pc *PropCfg, bo *buildOut, results [
 	exit := 0
 	var reported []string
 	// confirm each violation by replaying it in a fresh process
+	confirmedKey := map[string]bool{}
 	for n, v := range viols {
-		if n >= 3 {
+		if n >= 12 || len(reported) >= 3 {
 			break
+		}
+		if vv0, _ := v["violation"].(map[string]interface{}); vv0 != nil && confirmedKey[fmt.Sprint(vv0["class"], "|", vv0["key"])] {
+			continue
 		}
 		dir := filepath.Join(verifDir, "replays", id)
 		os.MkdirAll(dir, 0755)
@@ -771,9 +776,65 @@ func aggregate(id, tier string, seed int64, pc *PropCfg, bo *buildOut, results [
 			continue
 		}
 		if !ok {
-			infra = append(infra, fmt.Sprintf("violation %s (%s) did not replay in a fresh process: %s", class, path, why))
+			// the worker process that reported it had executed other runs before
+			// (and minimised in that same process): derive the run again from its
+			// seed in a fresh process, minimise there, and confirm that
+			if sd, err := strconv.ParseInt(seedStr, 10, 64); err == nil && sd != 0 {
+				if nv := rederive(bo, id, tier, sd, class, loadKnown()); nv != nil {
+					nv["tree_hash"] = bo.TreeHash
+					annotate(nv, bo.Report)
+					b, _ := json.MarshalIndent(nv, "", " ")
+					os.WriteFile(path, b, 0644)
+					if ok2, _ := confirmReplay(bo, path, id, class); ok2 {
+						ok, v = true, nv
+						vv, _ = nv["violation"].(map[string]interface{})
+					}
+				}
+			}
+		}
+		if !ok {
+			// it depends on what the worker's process executed before (state the
+			// program keeps for the life of its process): replay the worker's
+			// history of runs, the shortest stretch of it that reproduces
+			if h, _ := v["history"].(map[string]interface{}); h != nil {
+				from, to := jsonInt(h["from"]), jsonInt(h["to"])
+				for _, L := range []int64{4, 32, 256, 2048, 1 << 40} {
+					f := to - L + 1
+					if f < from {
+						f = from
+					}
+					h2 := map[string]interface{}{"job_seed": h["job_seed"], "worker": h["worker"], "tier": h["tier"], "from": f, "to": to, "replay": true}
+					nv := map[string]interface{}{}
+					for k, x := range v {
+						nv[k] = x
+					}
+					nv["history"] = h2
+					nv["minimised"] = false
+					nv["note"] = fmt.Sprintf("the violation depends on state the program keeps across the runs of one process: replay executes runs %d..%d of the reporting worker in a fresh process", f, to)
+					delete(nv, "schedule_trace")
+					b, _ := json.MarshalIndent(nv, "", " ")
+					os.WriteFile(path, b, 0644)
+					confirmTimeout = 180*time.Second + 3*wall
+					ok2, _ := confirmReplay(bo, path, id, class)
+					confirmTimeout = 0
+					if ok2 {
+						ok, v = true, nv
+						vv, _ = nv["violation"].(map[string]interface{})
+						break
+					}
+					if f == from {
+						break
+					}
+				}
+			}
+		}
+		if !ok {
+			os.Remove(path)
+			tot.Inconclusive["violation-not-reproduced-in-a-fresh-process"]++
+			infra = append(infra, fmt.Sprintf("violation %s (run seed %s) did not replay in a fresh process: %s", class, seedStr, why))
 			continue
 		}
+		confirmedKey[fmt.Sprint(vv["class"], "|", vv["key"])] = true
 		fmt.Printf("VIOLATION property=%s replay=%s\n", id, path)
 		fmt.Printf("  class=%s key=%v\n  %s\n", class, vv["key"], firstLines(fmt.Sprint(vv["msg"]), 12))
 		reported = append(reported, path)
@@ -924,6 +985,53 @@ func tailStr(s string, n int) string {
 	return s
 }
 
+// confirmTimeout overrides the time a confirming replay may take (history replays).
+var confirmTimeout time.Duration
+
+func jsonInt(x interface{}) int64 {
+	switch n := x.(type) {
+	case json.Number:
+		v, _ := n.Int64()
+		return v
+	case float64:
+		return int64(n)
+	case int64:
+		return n
+	case int:
+		return int64(n)
+	}
+	return 0
+}
+
+// rederive executes the one run of the given seed in a fresh process (plan and
+// choices are functions of the seed) and returns its minimised violation of
+// the class, if it occurs there.
+func rederive(bo *buildOut, id, tier string, seed int64, class string, known []KnownFinding) map[string]interface{} {
+	bin := bo.Bin
+	if bin == "" || (strings.HasPrefix(class, "race") && bo.RaceBin != "") {
+		bin = bo.RaceBin
+	}
+	job := &Job{Prop: id, Tier: tier, Worker: 901, NWorkers: 1, BudgetSec: 120, MaxRuns: 1, Minimise: true, MinBudget: 20, Known: known, OnlySeed: seed}
+	wr := runWorker(bin, job, bo.Scratch, 6000, 240*time.Second)
+	if wr.Raw == nil {
+		return nil
+	}
+	var r Result
+	json.Unmarshal(wr.Raw, &r)
+	for _, raw := range r.Violations {
+		dec := json.NewDecoder(bytes.NewReader(raw))
+		dec.UseNumber()
+		var m map[string]interface{}
+		if dec.Decode(&m) != nil {
+			continue
+		}
+		if vv, _ := m["violation"].(map[string]interface{}); vv != nil && fmt.Sprint(vv["class"]) == class {
+			return m
+		}
+	}
+	return nil
+}
+
 // confirmReplay runs the replay file in a fresh process; the same violation
 // class must recur.
 func confirmReplay(bo *buildOut, path, id, class string) (bool, string) {
@@ -936,7 +1044,11 @@ func confirmReplay(bo *buildOut, path, id, class string) (bool, string) {
 	if strings.HasPrefix(class, "race") && bo.RaceBin != "" {
 		bin = bo.RaceBin
 	}
-	wr := runWorker(bin, job, bo.Scratch, 6000, 120*time.Second)
+	to := 120 * time.Second
+	if confirmTimeout > 0 {
+		to = confirmTimeout
+	}
+	wr := runWorker(bin, job, bo.Scratch, 6000, to)
 	if class == "hang" || class == "out-of-memory" || class == "fatal-error" {
 		// resource exhaustion / fatal runtime error inside a decode step: the
 		// replay must kill the fresh process as well (watchdog, RLIMIT_AS or
